@@ -32,6 +32,7 @@ class VClock:
         self.reads = 0
         self.frozen = False
         self.fired = []
+        self.log = []          # value (ms) returned by each read, in order
 
     def read(self):
         if self.frozen:
@@ -43,6 +44,7 @@ class VClock:
             adv += self.plan[k]
             self.fired.append((k, self.plan[k]))
         self.ms += adv
+        self.log.append(self.ms)
         return self.ms / 1000.0
 
     @property
